@@ -229,6 +229,8 @@ class FlowEmit:
                     return self.block([("expr", tail)], None, env, M, ind)
                 if tail[0] == "mcall" and self.is_effect(tail):
                     return self.block([("expr", tail)], None, env, M, ind)
+                if self.spec.get("effect_calls") or self.spec.get("hoist_index"):
+                    return self.block([("return", tail)], None, env, M, ind)
                 t, ty = self.ex(tail, env)
                 return [pad + "Flow.ret " + self.retval(t, ty, env)]
             return [pad + self.cont(env, M)]
@@ -681,7 +683,8 @@ def emit_flow(fn, text, spec, structs):
     em.fixed = [(n, t) for n, t, g in params if g]
     body = fn["body"]
     sig0 = " ".join("(%s : %s)" % (n, t if g else lty(t, structs)) for n, t, g in params)
-    if not body[1] and body[2] is not None and body[2][0] not in ("if", "block", "for") and spec.get("returns") != "self":
+    if not body[1] and body[2] is not None and body[2][0] not in ("if", "block", "for") and spec.get("returns") != "self" \
+            and not spec.get("effect_calls") and not spec.get("hoist_index"):
         # a single expression: a plain definition, usable as a value by other kernels
         t, ty = em.ex(body[2], env)
         return "/-- translated from `%s`, fn `%s` -/\ndef %s %s : %s :=\n  %s\n" % (spec["file"], spec["fn"], spec["lean"], sig0, lty(ty, structs), t)
